@@ -261,8 +261,8 @@ def bad_point_values() -> list[bytes]:
     pt_schema = pa.ipc.open_stream(POINT).schema
     schema_only = world.ipc_stream(pt_schema, [])
     two = pa.RecordBatch.from_pydict({"x": [1, 2], "y": [3, 4]}, schema=pt_schema) if set(pt_schema.names) == {"x", "y"} else None
-    nulls = world.ipc_stream(pt_schema, [(pa.RecordBatch.from_arrays([pa.nulls(1, f.type) for f in pt_schema], schema=pt_schema), None)])
-    out = [b"garbage", b"", schema_only, POINT[: len(POINT) // 2], other, nulls, b"\xff\xff\xff\xff\x00\x00\x00\x00", POINT[:-8]]
+    # (a stream without its EOS marker, or one whose fields are null, still decodes -- not used)
+    out = [b"garbage", b"", schema_only, POINT[: len(POINT) // 2], other, b"\xff\xff\xff\xff\x00\x00\x00\x00"]
     if two is not None:
         out.append(world.ipc_stream(pt_schema, [(two, None)]))
     return out
